@@ -12,13 +12,13 @@ From RP Require Import Exec.Model.
 Import ListNotations.
 Local Open Scope nat_scope.
 
-Inductive lworld := LNone | LRun | LExit | LKill.
+Inductive lworld := LNone | LRun | LStub | LExit | LKill.
 Inductive lk := LkOut | LkAt (k : kpc).
 Inductive li := LiBefore | LiFilterPub | LiKept | LiAdvd | LiAt (pc : itpc) | LiDone.
 Inductive lwt := LGet | LPoll | LWait | LDel | LLock.
 Inductive lwph := LwDrainPos | LwIter | LwAt (pc : lwt) | LwPub | LwAdv.
 
-Record lconst := mkK { k_fault : fault; k_named : bool; k_to : bool }.
+Record lconst := mkK { k_fault : fault; k_named : bool; k_to : bool; k_stub : bool }.
 Record lsh := mkSh { h_tasks : bool; h_proc : bool; h_world : lworld }.
 Record lwf := mkWf { f_inq : bool; f_watch : bool; f_iter : bool; f_adv : nat; f_ph : lwph }.
 Record lcn := mkCn { c_exec : nat; c_canc : nat; c_fail : nat; c_stage : nat; c_coll : nat; c_cncl : nat; c_uns : nat }.
@@ -51,7 +51,7 @@ Definition wf_ph w p := mkWf (f_inq w) (f_watch w) (f_iter w) (f_adv w) p.
 Definition wf_iter w b := mkWf (f_inq w) (f_watch w) b (f_adv w) (f_ph w).
 Definition wf_watch w b := mkWf (f_inq w) b (f_iter w) (f_adv w) (f_ph w).
 
-Definition lrunning (w : lworld) : bool := match w with LRun => true | _ => false end.
+Definition lrunning (w : lworld) : bool := match w with LRun | LStub => true | _ => false end.
 
 (* ---- cancel_task(u), locally: new state and continuation ---- *)
 Definition lkstep (k : kpc) (v : lstate) : lstate * option kpc :=
@@ -60,8 +60,8 @@ Definition lkstep (k : kpc) (v : lstate) : lstate * option kpc :=
   | KGet => (v, if h_proc h then Some KPoll else None)
   | KPoll => (v, if lrunning (h_world h) then Some KLock else None)
   | KLock => if h_tasks h then (w_own (w_sh v (sh_tasks h false)) true, Some KKill) else (v, None)
-  | KKill => (w_sh v (sh_world h (if lrunning (h_world h) then LKill else h_world h)), Some KWait)
-  | KWait => (v, Some KDel)
+  | KKill => (w_sh v (sh_world h (match h_world h with LRun => LKill | w => w end)), Some KWait)
+  | KWait => (v, if lrunning (h_world h) then Some KWait else Some KDel)     (* blocked while the process runs *)
   | KDel => (w_sh v (sh_proc h false), Some KPub)
   | KPub => (w_n v (n_uns_ (l_n v) 1), Some KAdv)
   | KAdv => (w_n v (n_stcncl_ (l_n v) 1), None)
@@ -83,7 +83,7 @@ Definition drop_watch (v : lstate) : list lstate :=
 
 (* ---- the local moves ---- *)
 Definition act_env (v : lstate) : list lstate :=
-  match h_world (l_sh v) with LRun => [w_sh v (sh_world (l_sh v) LExit)] | _ => [] end.
+  match h_world (l_sh v) with LRun | LStub => [w_sh v (sh_world (l_sh v) LExit)] | _ => [] end.
 
 Definition act_i (v : lstate) : list lstate :=
   let h := l_sh v in let k := l_k v in
@@ -99,7 +99,7 @@ Definition act_i (v : lstate) : list lstate :=
                          (LiAt (match k_fault k with FNoLauncher | FScript => ITXLock | _ => ITSpawn end))]
       | ITSpawn => match k_fault k with
                    | FSpawn => [w_i v (LiAt ITXLock)]
-                   | _ => [w_i (w_sh v (mkSh (h_tasks h) true LRun)) (LiAt ITPid)]
+                   | _ => [w_i (w_sh v (mkSh (h_tasks h) true (if k_stub k then LStub else LRun))) (LiAt ITPid)]
                    end
       | ITPid => if h_proc h
                  then match k_fault k with
@@ -175,7 +175,7 @@ Definition li_n (i : li) : N :=
 Definition lk_n (k : lk) : N := match k with LkOut => 0 | LkAt k => 1 + kpc_n k end.
 Definition lwt_n (p : lwt) : N := match p with LGet => 0 | LPoll => 1 | LWait => 2 | LDel => 3 | LLock => 4 end.
 Definition lwph_n (p : lwph) : N := match p with LwDrainPos => 0 | LwIter => 1 | LwPub => 2 | LwAdv => 3 | LwAt p => 4 + lwt_n p end.
-Definition lworld_n (w : lworld) : N := match w with LNone => 0 | LRun => 1 | LExit => 2 | LKill => 3 end.
+Definition lworld_n (w : lworld) : N := match w with LNone => 0 | LRun => 1 | LExit => 2 | LKill => 3 | LStub => 4 end.
 Definition b_n (b : bool) : N := if b then 1 else 0.
 
 Local Open Scope N_scope.
@@ -183,8 +183,8 @@ Definition mix (acc radix d : N) : N := acc * radix + d.
 Definition enc_n (v : lstate) : N :=
   let k := l_k v in let h := l_sh v in let w := l_w v in let c := l_n v in
   let a := fault_n (k_fault k) in
-  let a := mix a 2 (b_n (k_named k)) in let a := mix a 2 (b_n (k_to k)) in
-  let a := mix a 2 (b_n (h_tasks h)) in let a := mix a 2 (b_n (h_proc h)) in let a := mix a 4 (lworld_n (h_world h)) in
+  let a := mix a 2 (b_n (k_named k)) in let a := mix a 2 (b_n (k_to k)) in let a := mix a 2 (b_n (k_stub k)) in
+  let a := mix a 2 (b_n (h_tasks h)) in let a := mix a 2 (b_n (h_proc h)) in let a := mix a 8 (lworld_n (h_world h)) in
   let a := mix a 32 (li_n (l_i v)) in let a := mix a 16 (lk_n (l_c v)) in let a := mix a 16 (lk_n (l_t v)) in
   let a := mix a 2 (b_n (f_inq w)) in let a := mix a 2 (b_n (f_watch w)) in let a := mix a 2 (b_n (f_iter w)) in
   let a := mix a 4 (N.of_nat (f_adv w)) in let a := mix a 16 (lwph_n (f_ph w)) in
@@ -199,6 +199,7 @@ Definition lstate_eqb (a b : lstate) : bool :=
   let ka := l_k a in let kb := l_k b in let ha := l_sh a in let hb := l_sh b in
   let wa := l_w a in let wb := l_w b in let ca := l_n a in let cb := l_n b in
   N.eqb (fault_n (k_fault ka)) (fault_n (k_fault kb)) && Bool.eqb (k_named ka) (k_named kb) && Bool.eqb (k_to ka) (k_to kb)
+  && Bool.eqb (k_stub ka) (k_stub kb)
   && Bool.eqb (h_tasks ha) (h_tasks hb) && Bool.eqb (h_proc ha) (h_proc hb) && N.eqb (lworld_n (h_world ha)) (lworld_n (h_world hb))
   && N.eqb (li_n (l_i a)) (li_n (l_i b)) && N.eqb (lk_n (l_c a)) (lk_n (l_c b)) && N.eqb (lk_n (l_t a)) (lk_n (l_t b))
   && Bool.eqb (f_inq wa) (f_inq wb) && Bool.eqb (f_watch wa) (f_watch wb) && Bool.eqb (f_iter wa) (f_iter wb)
@@ -232,16 +233,16 @@ Fixpoint bfs (fuel : nat) (frontier : list lstate) (m : lset) : lset :=
   end.
 
 Definition all_consts : list lconst :=
-  flat_map (fun f => flat_map (fun n => map (fun t => mkK f n t) [false; true]) [false; true])
+  flat_map (fun f => flat_map (fun n => flat_map (fun t => map (fun b => mkK f n t b) [false; true]) [false; true]) [false; true])
            [FNone; FNoLauncher; FScript; FSpawn; FAfterSpawn].
 Definition linits : list lstate := map linit all_consts.
 Definition reach_set : lset :=
   let '(m, nw) := fold_left visit linits (PM.empty lstate, []) in bfs 5000 nw m.
 
-Definition closed (m : lset) : bool :=
-  forallb (fun kv => forallb (fun v' => in_set v' m) (lnext (snd kv))) (PM.elements m).
-Definition all_in (m : lset) (p : lstate -> bool) : bool := forallb (fun kv => p (snd kv)) (PM.elements m).
-Definition keys_ok (m : lset) : bool := forallb (fun kv => Pos.eqb (fst kv) (enc (snd kv))) (PM.elements m).
+(* checks over all elements of the set (a fold over the tree: no deep recursion) *)
+Definition allp (m : lset) (p : lstate -> bool) : bool := PM.fold (fun _ v acc => acc && p v) m true.
+Definition closed (m : lset) : bool := allp m (fun v => forallb (fun v' => in_set v' m) (lnext v)).
+Definition all_in (m : lset) (p : lstate -> bool) : bool := allp m p.
 
 (* ---- what is read off the reachable set ---- *)
 Definition lquiescent (v : lstate) : bool :=
@@ -278,7 +279,8 @@ Definition safe_cancel (v : lstate) : bool :=
   && (Nat.eqb (c_canc c) 0 || (match h_world (l_sh v) with LNone => true | _ => false end) && Nat.eqb (c_exec c) 0)
   && (negb (l_own v) || Nat.eqb (c_coll c) 0 && Nat.eqb (c_fail c) 0 && negb (lrunning (h_world (l_sh v)))
                         || match l_c v, l_t v, l_i v with
-                           | LkAt KKill, _, _ | _, LkAt KKill, _ | _, _, LiAt (ITK KKill) => Nat.eqb (c_coll c) 0 && Nat.eqb (c_fail c) 0
+                           | LkAt KKill, _, _ | _, LkAt KKill, _ | _, _, LiAt (ITK KKill)
+                           | LkAt KWait, _, _ | _, LkAt KWait, _ | _, _, LiAt (ITK KWait) => Nat.eqb (c_coll c) 0 && Nat.eqb (c_fail c) 0
                            | _, _, _ => false end)
   && (negb (l_own v && lquiescent v) || Nat.eqb (c_cncl c) 1 && Nat.eqb (c_stage c) 1).
 
